@@ -68,6 +68,7 @@ type FuncContract struct {
 	StopBefore []string
 	ExactKeys  bool
 	NilOK      bool
+	NoPre      bool // partial mode: callee preconditions are not checked in this function (listed as not claimed)
 	NotClaimed [][3]string // obligation kind, fragment of its source line, reason
 }
 
@@ -123,7 +124,7 @@ var ckeywords = map[string]bool{
 	"ensures": true, "modifies": true, "nopanic": true, "nooverflow": true, "pure": true,
 	"trusted": true, "inline": true, "loop": true, "use": true, "split": true, "tier": true,
 	"induct": true, "ih": true, "allocbound": true, "abstract": true, "ghost": true, "uninterp": true, "where": true, "import": true, "globalinv": true, "slow": true,
-	"partial": true, "callsite": true, "ghostvar": true, "stopafter": true, "stopbefore": true, "notclaimed": true, "exactkeys": true, "nilok": true,
+	"partial": true, "callsite": true, "ghostvar": true, "stopafter": true, "stopbefore": true, "notclaimed": true, "exactkeys": true, "nilok": true, "nopre": true,
 }
 
 func parseParams(s string) ([]Param, error) {
@@ -468,6 +469,8 @@ func loadContracts(path string) (*PkgContracts, error) {
 					}
 					j := strings.Index(tail[1:], "\"") + 1
 					curF.NotClaimed = append(curF.NotClaimed, [3]string{ob, tail[1:j], strings.TrimSpace(tail[j+1:])})
+				case "nopre":
+					curF.NoPre = true
 				case "nilok":
 					// the method may be called on a nil receiver (it checks for nil itself)
 					curF.NilOK = true
